@@ -60,7 +60,7 @@ func gen(r *hx.Rand, n int, tier string, emit func(string), st *hx.Stats) {
 		case k < 66:
 			st.Inc("hist-cmdsql")
 			emit("H cmdsql " + genOps(c, 2+c.Intn(maxOps), true, odd))
-		case k < 96:
+		case k < 96 || (tier != "thorough" && k < 98):
 			mode := hx.Pick(c, []string{"b", "a", "c"})
 			st.Inc("inject-" + mode)
 			emit("F " + mode + " " + genOps(c, 2+c.Intn(6), false, odd))
